@@ -156,7 +156,32 @@ def gen_tree(rng, depth, npool, uni):
             "coeffs": [str(small(rng)) for _ in ents], "dtype": 'f64'}
 
 
+def gen_cmp_case(rng):
+    uni = gen_universe(rng)
+    pool = [gen_operand(rng, uni) for _ in range(rng.randint(1, 3))]
+    side = lambda: gen_tree(rng, rng.randint(0, 2), len(pool), uni)
+    # a numpy scalar on the LEFT of <= / >= / == answers itself (np.bool_) instead of deferring to the
+    # model's reflected operator - numpy's semantics, not dimod's; literals are Python numbers here
+    lit = lambda: {"op": "num", "v": str(rng.dyadic(6, 1)), "t": rng.choice(['int', 'float'])}
+    for n in (0,):
+        pass
+    r = rng.random()
+    if r < 0.6:
+        a, b = side(), lit()
+    elif r < 0.9:
+        a, b = lit(), side()
+    else:
+        a, b = side(), side()
+    for x in (a, b):
+        if x["op"] == "num" and Fraction(x["v"]).denominator != 1:
+            x["t"] = 'float' if x["t"] == 'int' else x["t"]
+    sense = rng.choice(['<=', '>=', '==']) if (a["op"] == "num") != (b["op"] == "num") else rng.choice(['<=', '>='])
+    return {"kind": "cmp", "uni": uni, "pool": pool, "a": a, "b": b, "sense": sense, "sseed": rng.randrange(1 << 30)}
+
+
 def gen_case(rng, tier):
+    if rng.random() < 0.12:
+        return gen_cmp_case(rng)
     uni = gen_universe(rng)
     pool = [gen_operand(rng, uni) for _ in range(rng.randint(1, 4))]
     tree = gen_tree(rng, rng.randint(1, 4), len(pool), uni)
@@ -298,14 +323,21 @@ class Ev:
             if n.get("inplace"):
                 if any(a is p for p in self.pool) and isinstance(a, (dimod.BinaryQuadraticModel, dimod.QuadraticModel)):
                     a = copy.deepcopy(a)   # views define no in-place operator, so they need no protection
-                if op == "add":
-                    a += b
-                elif op == "sub":
-                    a -= b
-                elif op == "mul":
-                    a *= b
-                else:
-                    a /= b
+                before = observe(a) if hasattr(a, 'variables') else None
+                try:
+                    if op == "add":
+                        a += b
+                    elif op == "sub":
+                        a -= b
+                    elif op == "mul":
+                        a *= b
+                    else:
+                        a /= b
+                except Exception:
+                    # a rejected in-place operation must leave its receiver as it was
+                    if before is not None and observe(a) != before:
+                        self.flags["failed_inplace_modified_receiver"] = f"{op}=: {before} -> {observe(a)}"
+                    raise
                 r = a
             else:
                 if op == "add":
@@ -389,10 +421,8 @@ def c_tree(n, leaves, T):
     if op == "quicksum":
         return f"(Quicksum {clist([c_tree(x, leaves, T) for x in n['items']])})"
     if op == "pysum":
-        t = f"(Num {cq(0)})"
-        for x in n["items"]:
-            t = f"(Add {t} {c_tree(x, leaves, T)})"
-        return t
+        # sum(list): every item is evaluated first, then 0 + x1 + x2 ... - the model's Quicksum over [0; items]
+        return f"(Quicksum {clist([f'(Num {cq(0)})'] + [c_tree(x, leaves, T) for x in n['items']])})"
     if op == "arrdot":
         # numpy object dot: sum of elementwise products
         k = n["kind"]
@@ -442,7 +472,89 @@ def tree_feats(n, acc):
         tree_feats(x, acc)
 
 
+SENSE_COQ = {'<=': 'CLe', '>=': 'CGe', '==': 'CEq'}
+
+
+def run_cmp_case(c):
+    """a <sense> b with the real operators, then cqm.add_constraint(comparison): what is stored"""
+    keep = []
+    pool = [build_operand(o, keep) for o in c["pool"]]
+    T = LabelTable([e[0] for e in c["uni"]])
+    E = Ev(pool)
+    feats = {"kind": "cmp", "sense": c["sense"]}
+    py_fail = None
+    res, o = None, None
+    try:
+        a = E.ev(c["a"])
+        b = E.ev(c["b"])
+        anum = isinstance(a, (int, float, np.number))
+        bnum = isinstance(b, (int, float, np.number))
+        if (anum and bnum) or (c["sense"] == '==' and anum == bnum):
+            # two numbers, or == between two models: plain Python / is_equal booleans, not comparisons
+            return {"coq": None, "features": {"kind": "cmp", "skipped": True}, "nontrivial": False}
+        if c["sense"] == '==' and any(type(x).__name__ in ('ObjectiveView', 'ConstraintView') for x in (a, b)):
+            return {"coq": None, "features": {"kind": "cmp", "skipped": True}, "nontrivial": False}
+        if isinstance(a, np.number):
+            a = a.item()      # see gen_cmp_case: numpy scalars on the left do not defer
+        comp = (a <= b) if c["sense"] == '<=' else (a >= b) if c["sense"] == '>=' else (a == b)
+        E.check_pool("comparison")
+        if not isinstance(comp, dimod.sym.Comparison):
+            py_fail = f"comparison returned {type(comp).__name__}"
+        else:
+            cqm = dimod.ConstrainedQuadraticModel()
+            lab = cqm.add_constraint(comp, label='k')
+            E.check_pool("add_constraint")
+            k = cqm.constraints[lab]
+            o = observe(k.lhs)
+            res = (f"(OCmp {c_tab(o['info'], T)} {gen.coq_obs(o, T)} {SENSE_COQ[k.sense.value]} {cq(F(k.rhs))})")
+            feats["result"] = "cmp"
+    except OperandChanged as e:
+        py_fail = "an operand was modified: " + str(e)
+        feats["operand_modified"] = True
+    except TypeError:
+        res = "(OCErr ETypeError)"
+        feats["result"] = "TypeError"
+    except ValueError as e:
+        res = "(OCErr EValueError)"
+        feats["result"] = "ValueError"
+        if "cannot be greater than" in str(e) or "cannot be less than" in str(e):
+            feats = {"narrow_dtype_bound_limit": True}
+        elif "conflicting" in str(e) and "bounds" in str(e) and any(d.get("dtype") == 'f32' for d in c["pool"]):
+            feats = {"narrow_dtype_bound_changed": True}
+    except ZeroDivisionError:
+        res = "(OCErr EZeroDiv)"
+        feats["result"] = "ZeroDivisionError"
+    except Exception as e:
+        py_fail = f"unexpected exception {type(e).__name__}: {e}"
+    if E.flags.get("failed_inplace_modified_receiver"):
+        return {"coq": None, "py_fail": "a failing in-place operator modified its receiver: " + E.flags["failed_inplace_modified_receiver"],
+                "features": {"failed_inplace_modified_receiver": True}, "nontrivial": True}
+    if res is None:
+        return {"coq": None, "py_fail": py_fail, "features": feats, "nontrivial": True}
+    leaves = [c_leaf(d, s, T) for d, s in zip(c["pool"], E.snap)]
+    ta, tb = c_tree(c["a"], leaves, T), c_tree(c["b"], leaves, T)
+    samples = []
+    if o is not None:
+        if any(d.get("dtype") == 'f32' for d in c["pool"]) and any(
+                x[1] == 'REAL' and F(x[3]) > 10 ** 30 for x in o["info"]):
+            feats = {"narrow_dtype_bound_changed": True}
+        doms = [(l, domain(vt, lb, ub)) for l, vt, lb, ub in o["info"]]
+        rs = random.Random(c["sseed"])
+        total = 1
+        for _, d in doms:
+            total *= len(d)
+        combos = list(itertools.product(*[d for _, d in doms])) if total <= 32 else \
+            [tuple(rs.choice(d) for _, d in doms) for _ in range(32)]
+        for cb in combos:
+            samples.append(clist([cpair(cnat(T.idx(l)), cq(x)) for (l, _), x in zip(doms, cb)]))
+    coq = f"(mkCCase {cnat(len(T))} {ta} {SENSE_COQ[c['sense']]} {tb} {res} {clist(samples)})"
+    return {"coq": coq, "check_fn": "check_cmp", "py_fail": py_fail, "features": feats,
+            "nontrivial": o is not None, "observed": o or {}}
+
+
 def run_case(c):
+    if c.get("kind") == "cmp":
+        return run_cmp_case(c)
     keep = []
     pool = [build_operand(o, keep) for o in c["pool"]]
     T = LabelTable([e[0] for e in c["uni"]])
@@ -511,6 +623,9 @@ def run_case(c):
         py_fail = f"unexpected exception {type(e).__name__}: {e}"
         feats["result"] = "other"
         o = None
+    if E.flags.get("failed_inplace_modified_receiver"):
+        py_fail = "a failing in-place operator modified its receiver: " + E.flags["failed_inplace_modified_receiver"]
+        return {"coq": None, "py_fail": py_fail, "features": {"failed_inplace_modified_receiver": True}, "nontrivial": True}
     if res is None:
         return {"coq": None, "py_fail": py_fail, "features": feats, "nontrivial": True}
     leaves = [c_leaf(d, s, T) for d, s in zip(c["pool"], E.snap)]
